@@ -57,7 +57,7 @@ PROPS = {
         "assumptions": ["journals with two prices for one commodity pair on one day are not generated (excluded by the property)"],
     },
     "C03": {
-        "lean": ["Knut.Properties.C03", "Knut.Properties.C03Bound"],
+        "lean": ["Knut.Properties.C03", "Knut.Properties.C03Bound", "Knut.Properties.C03Bridge"],
         "level": "proof",
         "claim": "PARTIAL proof + full correspondence + exact monitor. Proved for all journals/days on the model of ComputePrices/Valuate: C03_flow_valued_at_booking_day (every booking is "
                  "valued as quantity if in V, else Truncate8(quantity x price of its own day)), C03_missing_price_is_error / C03_missing_price_fails_day (a needed absent price fails the day: no number), "
@@ -108,7 +108,7 @@ PROPS = {
         "assumptions": ["unvalued reports only (valued ones: C01/C03)"],
     },
     "C01": {
-        "lean": ["Knut.Properties.C01"],
+        "lean": ["Knut.Properties.C01", "Knut.Properties.C01Table"],
         "level": "proof",
         "claim": "Lean theorems over the model of the whole balance pipeline (check, ComputePrices, Valuate with daily value adjustments, Filter, CloseAccounts, Query, report totals): "
                  "C01_entries_cancel (for every journal made of posting pairs, every window/interval/--last/--diff/--close/--remap/-m level>=1, valued or not, without filters, the report inserts "
